@@ -142,6 +142,12 @@ theorem C02_result_maps :
        ("primal objective", "-1.0"), ("dual objective", "None"),
        ("residual as dual infeasibility certificate", "dinfres")] := by decide
 
+/-- the certificate vectors handed out by the two infeasibility returns have all their 's' blocks symmetrised with the correct
+offsets (start after the 'l' and 'q' parts, stride `m²`): a wrong walk corrupts `z` / `s` only when there are several 's' blocks -/
+theorem C02_certificate_symm_walk :
+    (conelp.returns[2]?).map (·.2.filter (·.1 = "symm")) = some [("symm", "z", "order m over dims['s'] from dims['l'] + sum(dims['q']) step m ** 2")] ∧
+    (conelp.returns[3]?).map (·.2.filter (·.1 = "symm")) = some [("symm", "s", "order m over dims['s'] from dims['l'] + sum(dims['q']) step m ** 2")] := by decide
+
 /-- **A Farkas certificate is a proof of infeasibility** (the mathematical content, over any ordered field
 and any cone pair with `⟨s, z⟩ ≥ 0`): if `Gᵀz + Aᵀy = 0` and `hᵀz + bᵀy < 0` with `z` in the dual cone, then no
 `x` and `s` in the cone satisfy `Gx + s = h`, `Ax = b`.  `dX, dY, dZ` are only required to be adjoint-compatible. -/
